@@ -78,6 +78,15 @@ class MiniEval:
                 env[a.arg] = self.expr(d, {})
             else:
                 raise Unsupported(f'missing kw argument {a.arg}')
+        if _is_generator(fn):
+            # eager semantics: the yielded values are collected (sound for generators without side effects
+            # that are consumed by iteration; a consumer that stops early only sees a prefix)
+            env['__yields__'] = []
+            try:
+                self.block(fn.body, env)
+            except _Return:
+                pass
+            return env['__yields__']
         try:
             self.block(fn.body, env)
         except _Return as r:
@@ -96,6 +105,12 @@ class MiniEval:
             raise _Return(self.expr(s.value, env) if s.value is not None else None)
         if isinstance(s, ast.Expr):
             if isinstance(s.value, ast.Constant):
+                return
+            if isinstance(s.value, ast.Yield) and '__yields__' in env:
+                env['__yields__'].append(self.expr(s.value.value, env) if s.value.value is not None else None)
+                return
+            if isinstance(s.value, ast.YieldFrom) and '__yields__' in env:
+                env['__yields__'].extend(list(self.expr(s.value.value, env)))
                 return
             self.expr(s.value, env)
             return
@@ -144,6 +159,23 @@ class MiniEval:
         if isinstance(s, ast.AugAssign):
             cur = self.expr(s.target, env)
             self.assign(s.target, self.binop(s.op, cur, self.expr(s.value, env)), env)
+            return
+        if isinstance(s, ast.Delete):
+            for t in s.targets:
+                if isinstance(t, ast.Subscript):
+                    base = self.expr(t.value, env)
+                    if type(base) not in (dict, list):
+                        raise Unsupported(f'del on {type(base).__name__}')
+                    if isinstance(t.slice, ast.Slice):
+                        lo = self.expr(t.slice.lower, env) if t.slice.lower else None
+                        hi = self.expr(t.slice.upper, env) if t.slice.upper else None
+                        del base[lo:hi]
+                    else:
+                        del base[self.expr(t.slice, env)]
+                elif isinstance(t, ast.Name):
+                    env.pop(t.id, None)
+                else:
+                    raise Unsupported('del target')
             return
         if isinstance(s, ast.Break):
             raise _Break()
@@ -451,6 +483,18 @@ class MiniEval:
 
 _BUILTIN_TYPES = {'list': list, 'set': set, 'dict': dict, 'tuple': tuple, 'str': str, 'int': int, 'float': float,
                   'bool': bool, 'frozenset': frozenset, 'bytes': bytes, 'True': True, 'False': False, 'None': None}
+
+
+def _is_generator(fn) -> bool:
+    stack = list(fn.body)
+    while stack:
+        n = stack.pop()
+        if isinstance(n, (ast.Yield, ast.YieldFrom)):
+            return True
+        if isinstance(n, (ast.FunctionDef, ast.AsyncFunctionDef, ast.ClassDef, ast.Lambda)):
+            continue
+        stack.extend(ast.iter_child_nodes(n))
+    return False
 
 
 class _Break(Exception):
